@@ -499,10 +499,22 @@ func findMethodByFunctionCallPathRecursively(root interface{}, functionCallPath 
 			return reflect.Value{}, ErrCannotCallNonFunction
 		}
 
-		field = field.FieldByName(name)
-		if !field.IsValid() {
+		structField, ok := field.Type().FieldByName(name)
+		if !ok {
 			return reflect.Value{}, ErrCannotCallNonFunction
 		}
+
+		// `FieldByIndexErr` returns an error instead of panicking when the field is promoted through a nil embedded pointer
+		var err error
+		field, err = field.FieldByIndexErr(structField.Index)
+		if err != nil || !field.IsValid() {
+			return reflect.Value{}, ErrCannotCallNonFunction
+		}
+	}
+
+	// `MethodByName` panics on invalid values and on nil interface values
+	if !field.IsValid() || (field.Kind() == reflect.Interface && field.IsNil()) {
+		return reflect.Value{}, ErrCannotCallNonFunction
 	}
 
 	function := field.MethodByName(functionCallPathParts[len(functionCallPathParts)-1])
